@@ -715,8 +715,13 @@ def apply_exclusion(case):
 # shard driver
 # ---------------------------------------------------------------------------------------
 
-def one(ctx, case):
+def one(ctx, case, shrinking=False):
   V, infos, obss = evaluate(case)
+  if shrinking:                        # Hypothesis is minimising a failure: not part of the coverage
+    ctx.label("evaluations_while_shrinking_not_counted")
+    for v in V:
+      ctx.judge(case, v)
+    return
   ctx.count()
   kind = case["kind"]
   ctx.label("kind_" + kind)
@@ -752,11 +757,13 @@ def one(ctx, case):
 
 def run_shard(ctx):
   switch = any(e.get("kind") == "known" and e.get("signature") == KNOWN_BP_SIG for e in ctx.known)
-  total = ctx.n(1400, 110000)
+  total = ctx.n(4800, 110000)
   t_start = time.time()
   budget = max(1.0, ctx.deadline - t_start)
 
   def phase(name, n, salt, excl, stop_at):
+    nviol0 = len(ctx.violations)
+
     @seed(ctx.hseed(salt))
     @ctx.settings(n)
     @given(cases())
@@ -768,7 +775,7 @@ def run_shard(ctx):
         k = apply_exclusion(case)
         if k:
           ctx.exclude(EXCLUDE_NAME, k)
-      one(ctx, case)
+      one(ctx, case, shrinking=len(ctx.violations) > nviol0)
       if ctx.evaluations % 37 == 1:
         ctx.sample({"kind": case["kind"], "cfg": case["cfg"], "streams": case["streams"]})
     ctx.run(t, name)
